@@ -1,4 +1,5 @@
 #!/bin/bash
 # rb.sh <patchname> <props,comma> : run refactor variant against props
 . /verif/bin/env.sh; unset GOFLAGS
+/verif/bin/check C01 quick >/dev/null 2>&1 # rebuilds the checker if stale
 BENIGN_DIR=/verif/variants/refactor PROPS="$2" python3 /verif/tools/run_benign_all.py "$1" 2>&1 | cut -c1-700
